@@ -497,8 +497,9 @@ def llc_only(ck, model, exc_name, rng):
             dis += 1
             ck.fail("tie:llc-activate", "LogicalLinkController.activate: impl %r, model %r" % (real, rep),
                     {"request": line, "options": str(d)})
-        # documented exceptions only: a malformed peer PAX may raise DecodeError, nothing internal
-        if "exc:" in real and real.split("exc:")[1] not in ("DecodeError", "EncodeError"):
+        # llc.activate never raises on peer general bytes (malformed parameters -> returns False);
+        # only an unencodable local MIU raises EncodeError
+        if "exc:" in real and real.split("exc:")[1] not in ("EncodeError",):
             ck.fail("llc-activate-internal-error", "llc.activate raised %s on peer general bytes %s" % (real, d[3]),
                     {"request": line})
     ck.tie("llc-activate", len(lines), dis, exhaustive=False)
